@@ -1577,6 +1577,18 @@ class find(object):
         return dict(results)
 
 
+def _archive_path(root, rel):
+    """
+    Returns the path of `rel` beneath the archive directory `root`. Refuses a
+    `rel` that would be saved outside of `root`, e.g. an absolute path or one
+    that climbs above `root` with '..' segments.
+    """
+    dst = os.path.join(root, rel)
+    if not os.path.abspath(dst).startswith(os.path.join(os.path.abspath(root), "")):
+        raise ContentException("Cannot save %s outside of %s" % (rel, root))
+    return dst
+
+
 @serializer(CommandOutputProvider)
 def serialize_command_output(obj, root):
     rel = os.path.join("insights_commands", obj.relative_path)
@@ -1584,7 +1596,7 @@ def serialize_command_output(obj, root):
         rel = os.path.join("insights_commands", obj.save_as)
         if obj.save_as.endswith("/"):
             rel = os.path.join(rel, os.path.basename(obj.relative_path))
-    dst = os.path.join(root, rel)
+    dst = _archive_path(root, rel)
     rc = obj.write(dst)
     return {
         "rc": rc,
@@ -1614,7 +1626,7 @@ def serialize_text_file_provider(obj, root):
         rel = obj.save_as
         if obj.save_as.endswith("/"):
             rel = os.path.join(rel, os.path.basename(obj.relative_path))
-    dst = os.path.join(root, rel)
+    dst = _archive_path(root, rel)
     rc = obj.write(dst)
     return {
         "save_as": bool(obj.save_as),
@@ -1638,7 +1650,7 @@ def serialize_raw_file_provider(obj, root):
         rel = obj.save_as
         if obj.save_as.endswith("/"):
             rel = os.path.join(rel, os.path.basename(obj.relative_path))
-    dst = os.path.join(root, rel)
+    dst = _archive_path(root, rel)
     rc = obj.write(dst)
     return {
         "save_as": bool(obj.save_as),
@@ -1662,7 +1674,7 @@ def serialize_datasource_provider(obj, root):
         rel = obj.save_as
         if obj.save_as.endswith("/"):
             rel = os.path.join(rel, os.path.basename(obj.relative_path))
-    dst = os.path.join(root, rel)
+    dst = _archive_path(root, rel)
     obj.write(dst)
     return {"relative_path": rel, "save_as": obj.save_as}
 
@@ -1680,7 +1692,7 @@ def serialize_container_file_output(obj, root):
         rel = os.path.join("insights_containers", obj.save_as)
         if obj.save_as.endswith("/"):
             rel = os.path.join(rel, os.path.basename(obj.relative_path))
-    dst = os.path.join(root, rel)
+    dst = _archive_path(root, rel)
     rc = obj.write(dst)
     return {
         "save_as": bool(obj.save_as),
@@ -1710,7 +1722,7 @@ def serialize_container_command(obj, root):
         rel = os.path.join("insights_containers", obj.save_as)
         if obj.save_as.endswith("/"):
             rel = os.path.join(rel, os.path.basename(obj.relative_path))
-    dst = os.path.join(root, rel)
+    dst = _archive_path(root, rel)
     rc = obj.write(dst)
     return {
         "rc": rc,
